@@ -90,6 +90,7 @@ static std::string describe(tape_t const& tape)
         auto const& o = c.ops[i];
         os << (i ? ", " : "") << "\"" << op_names[o.k];
         if (o.k == O_SUSPEND_PU || o.k == O_RESUME_PU || o.k == O_BURST_RACING_SUSPEND) os << "(" << o.pu << ")" << (o.from_task ? " from task" : " from OS thread");
+        if (o.k == O_RESUME_PU && o.m >= 7) os << " then " << (o.m - 6) * 10 << " back-to-back suspend/resume cycles";
         if (o.k == O_BURST || o.k == O_BURST_RACING_SUSPEND) os << " m=" << o.m << " hint=" << o.hint << (o.yielding ? " yielding" : "");
         os << "\"";
     }
@@ -138,9 +139,11 @@ static void burst(World& W, Op const& o)
     }
 }
 
+// (the statement: "the calls themselves return" -> every issued suspend/resume call is a bounded call)
 template <typename F>
-static void issue(World& W, bool from_task, F f)
+static void issue(World& W, bool from_task, std::string what, F f)
 {
+    BoundedCall bc(std::move(what) + (from_task ? " issued from a task of another pool" : " issued from the main OS thread"));
     if (!from_task) { MainWaiting mw; f(); return; }
     std::atomic<int> done{0};
     ex::execute(ex::thread_pool_scheduler{W.ctl}, [&] { f(); done.store(1); });
@@ -210,7 +213,7 @@ static Outcome run(tape_t const& tape)
                 // refusal probe: documented error, and the worker keeps running
                 bool reported = false;
                 std::size_t before = W.tgt->get_active_os_thread_count();
-                issue(W, false, [&] {
+                issue(W, false, "refused suspend_processing_unit_direct", [&] {
                     if (c.refusal_ec)
                     {
                         pika::error_code ec(pika::throwmode::lightweight);
@@ -236,20 +239,28 @@ static Outcome run(tape_t const& tape)
                 }
                 break;
             }
-            issue(W, o.from_task, [&] { W.tgt->suspend_processing_unit_direct(static_cast<std::size_t>(o.pu)); });
+            issue(W, o.from_task, "suspend_processing_unit_direct(" + std::to_string(o.pu) + ")", [&] { W.tgt->suspend_processing_unit_direct(static_cast<std::size_t>(o.pu)); });
             W.definitely_suspended[o.pu].store(1);
             susp[static_cast<std::size_t>(o.pu)] = true;
             break;
         case O_RESUME_PU:
             W.definitely_suspended[o.pu].store(0);
-            issue(W, o.from_task, [&] { W.tgt->resume_processing_unit_direct(static_cast<std::size_t>(o.pu)); });
+            issue(W, o.from_task, "resume_processing_unit_direct(" + std::to_string(o.pu) + ")", [&] { W.tgt->resume_processing_unit_direct(static_cast<std::size_t>(o.pu)); });
             susp[static_cast<std::size_t>(o.pu)] = false;
             ++suspend_resume_pairs;
+            // back-to-back cycles on the same worker: resume is issued the moment suspend returned, i.e. possibly
+            // before the worker has actually gone to sleep (the hand-shake window)
+            for (int cyc = 0, ncyc = o.m >= 7 ? (o.m - 6) * 10 : 0; cyc < ncyc; ++cyc)
+            {
+                issue(W, o.from_task, "suspend_processing_unit_direct(" + std::to_string(o.pu) + ") [back-to-back cycle " + std::to_string(cyc) + "]", [&] { W.tgt->suspend_processing_unit_direct(static_cast<std::size_t>(o.pu)); });
+                issue(W, o.from_task, "resume_processing_unit_direct(" + std::to_string(o.pu) + ") right after the suspend returned [back-to-back cycle " + std::to_string(cyc) + "]", [&] { W.tgt->resume_processing_unit_direct(static_cast<std::size_t>(o.pu)); });
+                ++suspend_resume_pairs;
+            }
             break;
         case O_SUSPEND_POOL_RESUME:
         {
             // suspend_direct waits for the pool to drain, so it is issued from the main thread with nothing blocked
-            issue(W, false, [&] { W.tgt->suspend_direct(); });
+            issue(W, false, "suspend_direct()", [&] { W.tgt->suspend_direct(); });
             W.pool_definitely_suspended.store(1);
             Op b = o;
             b.yielding = false;
@@ -258,7 +269,7 @@ static Outcome run(tape_t const& tape)
             nanosleep(&ts, nullptr);
             W.pool_definitely_suspended.store(0);
             for (auto& a : W.definitely_suspended) a.store(0);
-            issue(W, false, [&] { W.tgt->resume_direct(); });
+            issue(W, false, "resume_direct()", [&] { W.tgt->resume_direct(); });
             for (std::size_t k = 0; k < susp.size(); ++k) susp[k] = false;
             ++suspend_resume_pairs;
             break;
@@ -268,7 +279,7 @@ static Outcome run(tape_t const& tape)
         {
             G().external_actors.fetch_add(1);
             std::thread sub([&] { burst(W, o); G().external_actors.fetch_sub(1); });
-            issue(W, o.from_task, [&] { W.tgt->suspend_processing_unit_direct(static_cast<std::size_t>(o.pu)); });
+            issue(W, o.from_task, "suspend_processing_unit_direct(" + std::to_string(o.pu) + ")", [&] { W.tgt->suspend_processing_unit_direct(static_cast<std::size_t>(o.pu)); });
             W.definitely_suspended[o.pu].store(1);
             susp[static_cast<std::size_t>(o.pu)] = true;
             sub.join();
@@ -314,7 +325,12 @@ static Outcome run(tape_t const& tape)
     }
     // final: resume everything, all work must complete (nothing dropped, nothing duplicated)
     for (std::size_t k = 0; k < susp.size(); ++k)
-        if (susp[k]) { W.definitely_suspended[k].store(0); W.tgt->resume_processing_unit_direct(k); }
+        if (susp[k])
+        {
+            W.definitely_suspended[k].store(0);
+            BoundedCall bc("final resume_processing_unit_direct(" + std::to_string(k) + ") from the main OS thread");
+            W.tgt->resume_processing_unit_direct(k);
+        }
     if (out.kind == Outcome::PASS)
     {
         wait_all_done("final");
